@@ -34,6 +34,21 @@ def _quantile(sorted_vals, q):
     return E.as_real(a) + (b - a) * frac if E.is_sym(a) or E.is_sym(b) or E.is_sym(frac) else a + (b - a) * frac
 
 
+def _R_ADD(a, b):
+    return C_ADD(b, a)
+
+
+def _R_SUB(a, b):
+    return C_SUB(b, a)
+
+
+def _R_MUL(a, b):
+    return C_MUL(b, a)
+
+
+_R_ADD._arith = _R_SUB._arith = _R_MUL._arith = True
+
+
 class Series:
     __array_priority__ = 2000
 
@@ -471,10 +486,33 @@ class Series:
             out.append(self._vals[p[0]] if p else NAN)
         return out
 
+    def _narrow_result(self, o, op):
+        """result dtype when integer arithmetic stays in a narrow dtype (numpy promotion; python scalars adopt it)"""
+        if op not in (C_ADD, C_SUB, C_MUL) and getattr(op, "_arith", None) is None:
+            return None
+        a = self._dtype if self._dtype in INT_BITS else None
+        if isinstance(o, Series):
+            b = o._dtype if o._dtype in INT_BITS else None
+            if a is None or b is None:
+                return None
+            return a if INT_BITS[a] >= INT_BITS[b] else b
+        if a is not None and isinstance(o, (int, E.SInt)) and not isinstance(o, bool):
+            return a
+        return None
+
     def _binop(self, o, op, dtype=None):
         from .pdframe import DataFrame
         if isinstance(o, DataFrame):
             return NotImplemented
+        if dtype is None:
+            nd = self._narrow_result(o, op)
+            if nd is not None:
+                r = self._binop(o, op, dtype="__narrow__")
+                r._vals = [wrap_int(v, nd) for v in r._vals]
+                r._dtype = nd if not any(is_na(v) for v in r._vals) else None
+                return r
+        if dtype == "__narrow__":
+            dtype = None
         if isinstance(o, Series):
             if self.index.identical_concrete(o.index):
                 idx, a, b = self.index, self._vals, o._vals
@@ -497,11 +535,11 @@ class Series:
         return self._new(vals, index=idx, name=name, dtype=sticky)
 
     def __add__(self, o): return self._binop(o, C_ADD)
-    def __radd__(self, o): return self._binop(o, lambda a, b: C_ADD(b, a))
+    def __radd__(self, o): return self._binop(o, _R_ADD)
     def __sub__(self, o): return self._binop(o, C_SUB)
-    def __rsub__(self, o): return self._binop(o, lambda a, b: C_SUB(b, a))
+    def __rsub__(self, o): return self._binop(o, _R_SUB)
     def __mul__(self, o): return self._binop(o, C_MUL)
-    def __rmul__(self, o): return self._binop(o, lambda a, b: C_MUL(b, a))
+    def __rmul__(self, o): return self._binop(o, _R_MUL)
     def __truediv__(self, o): return self._binop(o, C_DIV)
     def __rtruediv__(self, o): return self._binop(o, lambda a, b: C_DIV(b, a))
     def __floordiv__(self, o): return self._binop(o, C_FLOORDIV)
